@@ -137,6 +137,13 @@ def one_case(arg):
                         os.makedirs(os.path.join(altstore, os.path.basename(dp)), exist_ok=True)
                         os.rename(os.path.join(dp, fn), os.path.join(altstore, os.path.basename(dp), fn))
         modes.append(("GIT_ALTERNATE_OBJECT_DIRECTORIES", unrelated, [sz] + argv, {"GIT_DIR": ad, "GIT_ALTERNATE_OBJECT_DIRECTORIES": altstore}))
+        # started inside ANOTHER (bare) repository while GIT_DIR names the one to measure
+        decoy = os.path.join(d, "decoy.git")
+        dm = G.random_model(random.Random("C13decoy|%d|%d" % (seed, idx)), size="small", hostile_names=False, noise=False)
+        G.write_model(dm, decoy)
+        modes.append(("GIT_DIR-from-inside-another-bare-repository", decoy, [sz] + argv, {"GIT_DIR": gitdir}))
+        modes.append(("git --git-dir from inside another bare repository", decoy, [G.REAL_GIT, "--git-dir", gitdir, "sizer"] + argv,
+                      {"PATH": bindir + ":/usr/bin:/bin"}))
         gf = os.path.join(d, "gitfile-wt")
         os.makedirs(os.path.join(gf, "inner"))
         with open(os.path.join(gf, ".git"), "w") as f:
@@ -181,6 +188,10 @@ def one_case(arg):
                                         {"repo": [seed, idx], "kind": kind, "diffs": bad[:5]}))
                 out["sample"] = {"modes": sorted(outs), "kind": kind, "unique_commit_count": js.get("unique_commit_count"),
                                  "replace_refs": [r for r in m.refs if r.startswith("refs/replace/")][:2]}
+        if idx % 4 == 2:
+            # the children that discover the repository dying silently at every point, while the current directory is a
+            # different repository: success must still mean the repository GIT_DIR names
+            R.fault_sweep(R.Collector(out), "C13", sz, decoy, argv, shimdir, d, env={"GIT_DIR": gitdir}, only=["rev-parse"])
         if idx % 4 == 1:
             class _C:
                 def count(self, n=1): out["evals"] += n
